@@ -5,7 +5,8 @@ namespace Gotree.Driver.C05
 open Gotree Gotree.Driver Gotree.C05
 
 /-- `obs_C05` (DESIGN §4.2): tip set, unrooted splits with (length, support), tip branch
-    lengths, distance matrix; with `root`: the tip sets of the root's children, the root
+    lengths, distance matrix, number of neighbours of the root (rooted / unrooted / rooted at a tip —
+    which node `UnRoot` keeps as root when a root child is a tip shows here); with `root`: the tip sets of the root's children, the root
     branch lengths and the root-to-tip distances. -/
 def showU (l : List USplit) : String :=
   joinTerm ";" (l.map fun s => showStrList s.side ++ ":" ++ showRat s.len ++ ":" ++ showRat s.sup)
@@ -14,7 +15,7 @@ def obs (root : Bool) (u : T) : String :=
   let tips := sortS u.tipNames
   showStrList tips ++ "|" ++ showU u.usplits ++ "|" ++
     joinTerm ";" (u.tipLens.map fun p => showStrList p.1 ++ ":" ++ showRat p.2) ++ "|" ++
-    showRatMatrix u.distMatrix.2 ++
+    showRatMatrix u.distMatrix.2 ++ "|deg" ++ toString u.kids.length ++
     (if root then
       "|" ++ joinTerm ";" (sortStrings (u.kids.map fun k => showStrList (sortS k.2.leaves) ++ ":" ++ showRat k.1.len ++ ":" ++ showRat k.1.sup)) ++
       "|" ++ showRatList (tips.map u.rootDist)
